@@ -16,8 +16,42 @@ import (
 	"github.com/google/certificate-transparency-go/scanner"
 
 	"verif/sim/kernel"
-	"verif/sim/oracle"
 )
+
+// Edge and configuration map of C16 (statement clause -> what the code compares -> what is drawn).
+//
+// "the range [start, end)"            Prepare: EndIndex == 0 | EndIndex > STH size (clip) ; genRanges: start < end,
+//                                     start >= end (continuous), min(end-start, batch).
+//     drawn: StartIndex 0 | inside | n-1 | n | n+1 | beyond | so that n-start = k*batch-1/+0/+1 ;
+//            EndIndex 0 | inside | start (empty) | start+1 | start+k*batch-1/+0/+1 | n-1 | n | n+1 | beyond ;
+//            tree size 0 | 1.. | k*batch-1/+0/+1 | up to 200 ; the STH that answers Prepare may be stale (smaller n).
+//     not drawn (outside the statement): negative indices, BatchSize / ParallelFetch / NumWorkers <= 0 (the
+//            code spins or blocks by construction), tree sizes >= 2^63.
+// "however many entries per request"  runWorker: r.start <= r.end, r.start += len(entries).
+//     drawn: full | short 1 | short asked-1 | short in between, repeatedly for one range; never 0 or > asked.
+// "any batch size / parallel fetchers / matcher workers"  Batch 1-16 (half 1-4), ParallelFetch 1-5 (more workers
+//            than ranges occurs), NumWorkers 1-4, BufferSize 0 | 1 | 2 | 3 | 5 | 8 | batch-1 | batch | batch+1.
+// "transient errors"                  runWorker treats every error alike except gRPC codes the back-off retries
+//            after a pause: 429 | 500/502/503/504 | network | Unavailable/ResourceExhausted/Aborted/DeadlineExceeded
+//            (probe backoff.streak5: pause at the 30 s ceiling); GetSTH fails at Prepare (Run returns the
+//            error) or inside updateSTH (retried), or is stale.
+// "terminates when exhausted / stopped / cancelled"  Stop before Run was called (no-op cancel func), while Prepare
+//            waits (stop.early), twice (stop.twice), after Run returned; cancel by hand or by a context deadline
+//            (50 ms - 10 min, cancel.deadline); Prepare() called first (prepare.first: Run's own Prepare is then
+//            the cached branch, as in ScanLog / migrillian); scanner: cancel with all matcher workers busy.
+// "continuous mode"                   updateSTH: TreeSize <= last | quick && TreeSize < last+batch | 45 s window.
+//     drawn: growth 1 | 2 | batch-1 | batch | batch+1 | 3*batch | 20, STH unchanged / stale / bigger, clock steps
+//            of 44 s | 45 s | 30 s | ... (probes sth.accept.below-batch / exactly-batch / above-batch).
+// "callback exactly once for every entry its matcher selects"  processEntry: Matcher | LeafMatcher | neither (nil);
+//            PrecertOnly x both paths; ToLogEntry fatal | non-fatal | clean; RawLogEntryFromLeaf fails.
+//     drawn: MatchAll | MatchNone | serial | subject regex (CN / SAN) | issuer regex | MatchSCTTimestamp |
+//            CertParseFailMatcher(nonFatal on/off) | own leaf predicate | nil ; entries: certificate | precertificate
+//            (incl. precert-signing issuer) | lenient-only (non-fatal) cert and precert | undecodable cert / TBS |
+//            truncated leaf | unknown entry type ; Scan | ScanLog.
+// Caller-supplied interfaces: LogClient.GetSTH / GetRawEntries and all three callbacks are seams; BaseURI is
+// only used in log lines; matchers are pure functions of their argument (the world's own reads leaf bytes
+// only); the clock is the bubble's; klog is discarded; the consumer may keep the EntryBatch (Retain).
+//
 
 // Mode selects which entry point of /repo/scanner the run drives.
 type Mode struct {
@@ -53,23 +87,26 @@ func (m leafPred) Matches(l *ct.LeafEntry) bool {
 
 // Profile is drawn per run.
 type Profile struct {
-	Batch, Par  int
-	Start, End  int64
-	Continuous  bool
-	Size0       int64
-	MaxSize     int64
-	Grows       int
-	Order       []int // template ids, entry i is stamped from Order[i % len(Order)]
-	NumWorkers  int
-	BufferSize  int
-	PrecertOnly bool
-	UseScan     bool // call Scan instead of ScanLog
-	Matcher     string
-	Fault       map[string]int
-	AllowStop   bool
-	AllowCancel bool
-	ClockNoise  bool
-	Retain      bool // fetcher spec: the consumer keeps every EntryBatch as delivered and reads it again later
+	Batch, Par    int
+	Start, End    int64
+	Continuous    bool
+	Size0         int64
+	MaxSize       int64
+	Grows         int
+	Order         []int // template ids, entry i is stamped from Order[i % len(Order)]
+	NumWorkers    int
+	BufferSize    int
+	PrecertOnly   bool
+	UseScan       bool // call Scan instead of ScanLog
+	Matcher       string
+	Fault         map[string]int
+	AllowStop     bool
+	AllowCancel   bool
+	ClockNoise    bool
+	PrepareFirst  bool
+	StopBeforeRun bool
+	Deadline      time.Duration
+	Retain        bool // fetcher spec: the consumer keeps every EntryBatch as delivered and reads it again later
 }
 
 type delivery struct {
@@ -112,6 +149,7 @@ type World struct {
 	sthPrep       int64 // size in the STH that answered Prepare (-1: none yet)
 	sthMax        int64 // largest size ever given in an STH
 	stopIssued    bool
+	stopEvents    int
 	stopEffective bool // Stop issued after Prepare had its STH (Run has installed its cancel function by then)
 	cancelled     bool
 	settleEnded   bool
@@ -122,6 +160,8 @@ type World struct {
 	nDelivered    int
 	served        map[int64]int     // times index i was contained in an answer
 	lastAnswer    map[string]string // range digest -> kind of the last answer
+	streak        map[string]int    // range digest -> retryable gRPC failures so far
+	fetchEnd      int64             // the end the fetcher is known to work towards (STH sizes it has accepted)
 	seen          map[string]bool   // parked keys already logged
 	grewConsumed  bool
 	flatStart     int64 // first and last index of the most recent entry-bearing answer
@@ -162,7 +202,9 @@ func (w *World) Init(s *kernel.Sim) {
 	}
 	p.Par = t.Range(1, 5)
 	p.Continuous = t.Chance(1, 3)
-	switch t.Pick([]int{2, 2, 4, 3, 1}) {
+	switch t.Pick([]int{2, 2, 4, 3, 1, 3}) {
+	case 5: // a whole number of batches, one more, one less
+		p.Size0 = max64(0, min64(200, int64(t.Range(1, 6)*p.Batch+t.Range(-1, 1))))
 	case 0:
 		p.Size0 = int64(t.Range(1, 12))
 	case 1:
@@ -184,7 +226,13 @@ func (w *World) Init(s *kernel.Sim) {
 		p.MaxSize = min64(200, p.Size0+int64(t.Range(1, 60)))
 	}
 	n := p.Size0
-	switch t.Pick([]int{4, 2, 1, 1, 2}) {
+	switch t.Pick([]int{4, 2, 1, 1, 2, 1, 1, 3}) {
+	case 5:
+		p.Start = max64(0, n-1) // the last entry only
+	case 6:
+		p.Start = n + 1 // one beyond the tree
+	case 7: // the range to the end of the tree is a whole number of batches, one more, one less
+		p.Start = max64(0, n-int64(t.Range(1, 5)*p.Batch+t.Range(-1, 1)))
 	case 0:
 		p.Start = 0
 	case 1:
@@ -196,7 +244,15 @@ func (w *World) Init(s *kernel.Sim) {
 	default:
 		p.Start = max64(0, n-int64(t.Range(0, 6*p.Batch)))
 	}
-	switch t.Pick([]int{5, 2, 1, 2, 2}) {
+	switch t.Pick([]int{5, 2, 1, 2, 2, 1, 1, 1, 3}) {
+	case 5:
+		p.End = max64(0, n-1) // one below the tree size (0: the whole tree)
+	case 6:
+		p.End = n + 1 // one above: clipped to the tree size
+	case 7:
+		p.End = p.Start + 1 // a single entry
+	case 8: // [start, end) is a whole number of batches, one more, one less
+		p.End = max64(p.Start, p.Start+int64(t.Range(1, 5)*p.Batch+t.Range(-1, 1)))
 	case 0:
 		p.End = 0 // the whole tree at the STH
 	case 1:
@@ -212,6 +268,9 @@ func (w *World) Init(s *kernel.Sim) {
 	weights := make([]int, len(w.tmpls))
 	for i, tm := range w.tmpls {
 		weights[i] = 3
+		if tm.nonfatal {
+			weights[i] = 2
+		}
 		if !tm.parses {
 			weights[i] = 1
 		}
@@ -221,7 +280,7 @@ func (w *World) Init(s *kernel.Sim) {
 	}
 	if w.mode.Scanner {
 		p.NumWorkers = t.Range(1, 4)
-		p.BufferSize = []int{0, 1, 2, 8, 3, 5}[t.Intn(6)]
+		p.BufferSize = []int{0, 1, 2, 8, 3, 5, max(0, p.Batch-1), p.Batch, p.Batch + 1}[t.Intn(9)] // below, at and above one batch
 		p.PrecertOnly = t.Chance(1, 4)
 		p.UseScan = t.Chance(1, 3)
 		w.drawMatcher()
@@ -235,6 +294,9 @@ func (w *World) Init(s *kernel.Sim) {
 		}
 		if t.Chance(1, 4) {
 			p.Fault["rpc.unavailable"] = 1
+			if t.Chance(1, 4) {
+				p.Fault["rpc.unavailable"] = 15 // a backend that stays unavailable: the back-off climbs to its ceiling
+			}
 		}
 		if t.Chance(1, 4) {
 			p.Fault["sth.err"] = 1
@@ -250,12 +312,19 @@ func (w *World) Init(s *kernel.Sim) {
 	}
 	p.ClockNoise = t.Chance(1, 3)
 	p.Retain = !w.mode.Scanner && t.Chance(1, 2)
+	if !w.mode.Scanner {
+		p.PrepareFirst = t.Chance(1, 4)   // Prepare() before Run(), as ScanLog and migrillian do
+		p.StopBeforeRun = t.Chance(1, 12) // Stop() on a Fetcher whose Run has not been called: documented no-op
+		if t.Chance(1, 8) {               // the caller's context carries a deadline instead of being cancelled by hand
+			p.Deadline = []time.Duration{50 * time.Millisecond, time.Second, 10 * time.Second, time.Minute, 10 * time.Minute}[t.Intn(5)]
+		}
+	}
 
 	// the log: every entry it will ever publish
 	w.log = &simLog{s: s}
 	for i := int64(0); i < p.MaxSize; i++ {
 		tm := w.tmpls[p.Order[int(i)%len(p.Order)]]
-		w.log.entries = append(w.log.entries, logEntry{t: tm, leaf: oracle.MerkleTreeLeaf(tsBase+uint64(i), tm.entry, nil)})
+		w.log.entries = append(w.log.entries, logEntry{t: tm, leaf: tm.leafFor(tsBase + uint64(i))})
 	}
 	w.size = p.Size0
 	w.history = []int64{p.Size0}
@@ -265,8 +334,12 @@ func (w *World) Init(s *kernel.Sim) {
 	w.cb = map[int64][3]int{}
 	w.served = map[int64]int{}
 	w.lastAnswer = map[string]string{}
+	w.streak = map[string]int{}
 	w.seen = map[string]bool{}
 	w.ctx, w.cancel = context.WithCancel(context.Background())
+	if p.Deadline > 0 {
+		w.ctx, w.cancel = context.WithTimeout(context.Background(), p.Deadline)
+	}
 
 	if s.Timed { // real parallelism is the point of timed mode
 		p.Par = max(p.Par, 2)
@@ -294,6 +367,9 @@ func (w *World) Init(s *kernel.Sim) {
 		w.logf("consumer retains the batches")
 		s.Probe("retain.run")
 	}
+	if !w.mode.Scanner {
+		w.logf("fetcher prepareFirst=%v stopBeforeRun=%v deadline=%v", p.PrepareFirst, p.StopBeforeRun, p.Deadline)
+	}
 	if w.mode.Scanner {
 		w.logf("scanner workers=%d buffer=%d precertOnly=%v scan=%v matcher=%s", p.NumWorkers, p.BufferSize, p.PrecertOnly, p.UseScan, w.match.Desc)
 		w.scan = scanner.NewScanner(w.log, scanner.ScannerOptions{FetcherOptions: fo, Matcher: w.match.m, PrecertOnly: p.PrecertOnly, NumWorkers: p.NumWorkers, BufferSize: p.BufferSize})
@@ -308,7 +384,24 @@ func (w *World) Init(s *kernel.Sim) {
 		}
 	} else {
 		w.fetcher = scanner.NewFetcher(w.log, &fo)
-		w.run = func() { w.finish(w.fetcher.Run(w.ctx, w.onBatch)) }
+		w.run = func() {
+			if p.PrepareFirst {
+				if _, err := w.fetcher.Prepare(w.ctx); err != nil {
+					w.finish(err)
+					return
+				}
+			}
+			w.finish(w.fetcher.Run(w.ctx, w.onBatch))
+		}
+		if p.PrepareFirst {
+			s.Probe("prepare.first")
+		}
+		if p.StopBeforeRun {
+			// the statement is silent on what a Stop before Run means for the run: completeness is not demanded
+			w.fetcher.Stop()
+			w.stopIssued = true
+			s.Probe("stop.before-run")
+		}
 	}
 	if !s.Timed { // timed mode: TimedRun starts it once the seam decisions are in place
 		s.Go(w.run)
@@ -344,7 +437,7 @@ func (w *World) drawMatcher() {
 		{`^PreIssuer`, func(tm *tmpl) bool { return false }}, // a leaf never names the precert-signing certificate
 	}
 	ms := &w.match
-	switch t.Intn(7) {
+	switch t.Intn(9) {
 	case 0:
 		*ms = matchSpec{Kind: "all", Desc: "MatchAll", m: &scanner.MatchAll{}, sel: func(*tmpl, int64) bool { return true }}
 	case 1:
@@ -385,6 +478,15 @@ func (w *World) drawMatcher() {
 		}
 		*ms = matchSpec{Kind: "leafpred", Desc: fmt.Sprintf("leafPred(idx%%%d==%d, kind=%d)", mod, rem, kind), m: leafPred{f: f}, leaf: true,
 			sel: func(tm *tmpl, idx int64) bool { return f(idx, tm.pre) }}
+	case 7:
+		// no Matcher given: the scanner's matcher is then the documented default, match-everything
+		// (NewScanner: "Set a default match-everything regex if none was provided", DefaultScannerOptions).
+		*ms = matchSpec{Kind: "nil", Desc: "nil (default: match everything)", m: nil, sel: func(*tmpl, int64) bool { return true }}
+		w.s.Probe("matcher.nil")
+	case 8:
+		nf := t.Chance(1, 2)
+		*ms = matchSpec{Kind: "parsefail", Desc: fmt.Sprintf("CertParseFailMatcher(nonFatal=%v)", nf), m: scanner.CertParseFailMatcher{MatchNonFatalErrs: nf}, leaf: true,
+			sel: func(tm *tmpl, _ int64) bool { return !tm.parses || tm.nonfatal && nf }}
 	default:
 		target := int64(t.Range(0, int(w.prof.MaxSize)))
 		*ms = matchSpec{Kind: "scttime", Desc: fmt.Sprintf("MatchSCTTimestamp(index %d)", target), m: scanner.MatchSCTTimestamp{Timestamp: tsBase + uint64(target)}, leaf: true, target: target,
@@ -517,6 +619,12 @@ func (w *World) entryFault(p *kernel.Parked, n int64, gate bool) (kernel.Option,
 		d := kernel.Decision{Kind: kind}
 		if kind == "http.5xx" {
 			d.N = []int64{500, 502, 503, 504}[t.Intn(4)]
+		}
+		if kind == "rpc.unavailable" {
+			d.N = []int64{14, 8, 10, 4}[t.Intn(4)] // Unavailable, ResourceExhausted, Aborted, DeadlineExceeded: all retried with back-off
+			if w.streak[p.Digest]++; w.streak[p.Digest] == 5 {
+				w.s.Probe("backoff.streak5") // 1+2+4+8+16 s: the next pause is at the 30 s ceiling
+			}
 		}
 		w.lastAnswer[p.Digest] = kind
 		w.s.Fault(kind)
@@ -698,7 +806,9 @@ func (w *World) Options(s *kernel.Sim) []kernel.Option {
 	}
 	opts := oks
 	if len(parked) == 0 {
-		opts = append(opts, s.AdvanceOpt(time.Second, 6), s.AdvanceOpt(10*time.Second, 4), s.AdvanceOpt(50*time.Millisecond, 1), s.AdvanceOpt(2*time.Minute, 2))
+		// 45 s is updateSTH's "quick" window, 30 s / 60 s the back-off ceiling without / with full jitter
+		opts = append(opts, s.AdvanceOpt(time.Second, 6), s.AdvanceOpt(10*time.Second, 4), s.AdvanceOpt(50*time.Millisecond, 1), s.AdvanceOpt(2*time.Minute, 2),
+			s.AdvanceOpt(45*time.Second, 1), s.AdvanceOpt(44*time.Second, 1), s.AdvanceOpt(30*time.Second, 1))
 	} else if w.prof.ClockNoise {
 		opts = append(opts, s.AdvanceOpt(time.Second, 1), s.AdvanceOpt(10*time.Second, 1))
 	}
@@ -718,8 +828,13 @@ func (w *World) Options(s *kernel.Sim) []kernel.Option {
 			w.logf("log publishes %d more entries: size %d", k, w.size)
 		}})
 	}
-	if w.prof.AllowStop && !w.stopIssued {
-		opts = append(opts, kernel.Option{Key: "stop", Weight: 1, Apply: func() { w.doStop("event") }})
+	if w.prof.AllowStop && w.stopEvents < 2 { // a second Stop is legal and must change nothing
+		opts = append(opts, kernel.Option{Key: "stop", Weight: 1, Apply: func() {
+			if w.stopEvents++; w.stopEvents == 2 {
+				s.Probe("stop.twice")
+			}
+			w.doStop("event")
+		}})
 	}
 	if w.prof.AllowCancel && !w.cancelled {
 		// all matcher workers busy in callbacks: a fetch worker may be blocked inside flatten with the rest
@@ -931,6 +1046,15 @@ func (w *World) judgeDelivery(d delivery) {
 		s.Violate("dup", "scanner|"+name, "%s callback invoked %d times for index %d", name, c[d.kind], idx)
 		return
 	}
+	switch {
+	case tm.nonfatal:
+		s.Probe("cb.nonfatal-entry")
+		if w.match.Kind == "parsefail" {
+			s.Probe("parsefail.nonfatal-selected") // the lenient-only entries really take the non-fatal branch
+		}
+	case !tm.parses:
+		s.Probe("cb.unparsable-entry")
+	}
 	want, _ := w.expect(idx)
 	if want == 0 {
 		key := "unselected|" + w.match.Kind
@@ -959,6 +1083,11 @@ func (w *World) expect(idx int64) (kind int, lax bool) {
 		return 0, false
 	}
 	ms := &w.match
+	if tm.leafBad {
+		// no RawLogEntry can be built from the leaf: the statement does not say the entry is selected,
+		// a callback for it would still have to be the only one and carry its bytes
+		return own, true
+	}
 	if !tm.parses && (!ms.leaf || ms.Kind == "scttime") {
 		if ms.Kind == "scttime" && idx != ms.target {
 			return 0, false
@@ -1006,6 +1135,9 @@ func (w *World) judgeDone() {
 	if w.prof.Retain && !s.Violated() {
 		w.verifyRetained(0, "after the run had ended") // ... and all of them once the run is over
 	}
+	if w.fetcher != nil && !s.Timed {
+		w.fetcher.Stop() // Stop after Run has returned is legal (and a no-op)
+	}
 	switch {
 	case w.cancelled && !w.settleEnded:
 		s.Probe("run.cancelled")
@@ -1025,6 +1157,24 @@ func (w *World) judgeDone() {
 	if !w.prof.Continuous && !userStop && !userCancel && w.sthPrep >= 0 && w.runErr == nil {
 		s.Probe("run.completed")
 		w.judgeComplete(w.prof.Start, w.expectedEnd(), "completed")
+		if l, b := w.expectedEnd()-w.prof.Start, int64(w.prof.Batch); l <= 0 {
+			s.Probe("range.empty")
+		} else {
+			if l == 1 {
+				s.Probe("range.single")
+			}
+			switch l % b {
+			case 0:
+				s.Probe("range.len=k*batch")
+			case 1:
+				s.Probe("range.len=k*batch+1")
+			case b - 1:
+				s.Probe("range.len=k*batch-1")
+			}
+			if w.prof.End > w.sthPrep {
+				s.Probe("range.end-clipped")
+			}
+		}
 	}
 	if w.prof.Continuous && !w.mode.Scanner && w.stopEffective && !w.cancelled && !s.Violated() {
 		// stopped, not cancelled: started fetches were finished, so what was delivered is a gap-free run of indices from StartIndex
@@ -1059,6 +1209,22 @@ func (w *World) AfterStep(s *kernel.Sim) {
 		}
 		r := p.Info.([2]int64)
 		w.logf("request GetRawEntries(%d,%d)", r[0], r[1])
+		if w.prof.Continuous && w.sthPrep >= 0 {
+			if w.fetchEnd == 0 {
+				w.fetchEnd = max64(w.expectedEnd(), w.prof.Start)
+			}
+			if r[1] >= w.fetchEnd { // the fetcher works beyond the end it had: it has accepted a bigger STH
+				switch grown := w.sthMax - w.fetchEnd; {
+				case grown < int64(w.prof.Batch):
+					s.Probe("sth.accept.below-batch") // only possible once updateSTH's 45 s window has passed
+				case grown == int64(w.prof.Batch):
+					s.Probe("sth.accept.exactly-batch")
+				default:
+					s.Probe("sth.accept.above-batch")
+				}
+				w.fetchEnd = w.sthMax
+			}
+		}
 		switch w.lastAnswer[p.Digest] {
 		case "http.429":
 			s.Probe("retry.after429")
@@ -1068,6 +1234,11 @@ func (w *World) AfterStep(s *kernel.Sim) {
 		if r[0] > 0 && w.served[r[0]-1] > 0 && w.served[r[0]] == 0 && r[1]-r[0]+1 < int64(w.prof.Batch) {
 			s.Probe("remainder.requested")
 		}
+	}
+	if w.prof.Deadline > 0 && !w.cancelled && w.ctx.Err() != nil {
+		w.cancelled = true // the caller's deadline has passed during a clock advance
+		w.logf("context deadline %v exceeded", w.prof.Deadline)
+		s.Probe("cancel.deadline")
 	}
 	w.mu.Lock()
 	pend := w.pending
